@@ -31,7 +31,7 @@
 
   * `schema_on_reference_engine` — **the executable predicate `Spec.c03` itself, both clauses**: in the scope of the two
     whole-schema theorems `C01.schema_on_reference_engine` and `C02.schema_on_reference_engine` (no foreign keys, inline
-    PRIMARY KEY or COMMENT options; common tables order-compatible with the same primary key, outside the recorded
+    PRIMARY KEY; common tables order-compatible with the same primary key, outside the recorded
     region), `modelUp` and `modelDown` return and `c03 dbOld dbNew up down = .ok ()`: if the two reference schemas are
     `DB.equiv` both migrations are empty (`dbEquiv_of_equiv` feeds `equal_schemas_from_scripts`), and otherwise no
     statement of either migration targets a table that is `TableSpec.equiv` on the two sides — because every printed
@@ -225,7 +225,6 @@ theorem schema_on_reference_engine (g : Globals) (hg : g.dialect = .mysql) (hio 
     (heo : execAll rc [] old = some dbO) (hen : execAll rc [] new = some dbN)
     (hdef : ∀ tb ∈ dbO ++ dbN, tb.name ≠ Migration.defaultMigrationTable)
     (hnofk : ∀ tb ∈ dbO ++ dbN, tb.fks = [])
-    (hncm : ∀ tb ∈ dbO ++ dbN, ∀ c ∈ tb.cols, ∀ k ∈ c.opts, k.noComment = true)
     (hboth : ∀ tbO ∈ dbO, ∀ tbN ∈ dbN, tbO.name = tbN.name →
       Abs.OrderCompatible tbN.colNames tbO.colNames ∧ (∀ n ∈ tbN.colNames ++ tbO.colNames, n ≠ "") ∧ tbO.pk = tbN.pk ∧
       (∀ dc : List String, (∀ c ∈ dc, c ∉ tbN.colNames) →
@@ -233,7 +232,7 @@ theorem schema_on_reference_engine (g : Globals) (hg : g.dialect = .mysql) (hio 
       (∀ dc : List String, (∀ c ∈ dc, c ∉ tbO.colNames) →
         ∀ s ∈ tbN.idxs, ∀ o ∈ tbO.idxs, o.name = s.name → o ≠ s → ∃ c ∈ s.cols, c ∉ dc)) :
     ∃ up down, modelUp g old new = .ok up ∧ modelDown g old new = .ok down ∧ c03 dbO dbN up down = .ok () :=
-  schema_c03 g hg hio rc old new dbO dbN ho hn hpo hpn heo hen hdef hnofk hncm hboth
+  schema_c03 g hg hio rc old new dbO dbN ho hn hpo hpn heo hen hdef hnofk hboth
 
 /-- the reference-engine lemma behind the second clause: a statement about a table that is equivalent on both sides is
     not justified by any difference -/
@@ -256,7 +255,6 @@ theorem schema_on_reference_engine_either_setting (g : Globals) (hg : g.dialect 
     (heo : execAll rc [] old = some dbO) (hen : execAll rc [] new = some dbN)
     (hdef : ∀ tb ∈ dbO ++ dbN, tb.name ≠ Migration.defaultMigrationTable)
     (hnofk : ∀ tb ∈ dbO ++ dbN, tb.fks = [])
-    (hncm : ∀ tb ∈ dbO ++ dbN, ∀ c ∈ tb.cols, ∀ k ∈ c.opts, k.noComment = true)
     (hboth : ∀ tbO ∈ dbO, ∀ tbN ∈ dbN, tbO.name = tbN.name →
       Abs.OrderCompatible tbN.colNames tbO.colNames ∧ (∀ n ∈ tbN.colNames ++ tbO.colNames, n ≠ "") ∧ tbO.pk = tbN.pk ∧
       (∀ dc : List String, (∀ c ∈ dc, c ∉ tbN.colNames) →
@@ -264,6 +262,6 @@ theorem schema_on_reference_engine_either_setting (g : Globals) (hg : g.dialect 
       (∀ dc : List String, (∀ c ∈ dc, c ∉ tbO.colNames) →
         ∀ s ∈ tbN.idxs, ∀ o ∈ tbO.idxs, o.name = s.name → o ≠ s → ∃ c ∈ s.cols, c ∉ dc)) :
     ∃ up down, modelUp g old new = .ok up ∧ modelDown g old new = .ok down ∧ c03 dbO dbN up down = .ok () :=
-  schema_c03_any g hg rc old new dbO dbN ho hn hpo hpn heo hen hdef hnofk hncm hboth
+  schema_c03_any g hg rc old new dbO dbN ho hn hpo hpn heo hen hdef hnofk hboth
 
 end Sqlize.C03
